@@ -216,6 +216,7 @@ pub fn gen_plan(seed: u64, p: &Profile) -> Plan {
         wire: p.wire.unwrap_or_else(|| s.chance(1, 2)),
         crash: p.crash.to_string(),
         crash_steps: Vec::new(),
+        entropy: Vec::new(),
     }
 }
 
@@ -255,6 +256,12 @@ pub fn shrink_plan(p: &Plan) -> Vec<Plan> {
             let mut q = p.clone();
             q.channels.remove(i);
             q.crash_steps.retain(|(c, _)| *c != i);
+            q.entropy.retain(|e| e.0 != i);
+            for e in q.entropy.iter_mut() {
+                if e.0 > i {
+                    e.0 -= 1;
+                }
+            }
             for cs in q.crash_steps.iter_mut() {
                 if cs.0 > i {
                     cs.0 -= 1;
@@ -365,6 +372,25 @@ pub fn shrink_plan(p: &Plan) -> Vec<Plan> {
             for i in 0..p.crash_steps.len() {
                 let mut q = p.clone();
                 q.crash_steps.remove(i);
+                out.push(q);
+            }
+        }
+    }
+    if !p.entropy.is_empty() {
+        let mut q = p.clone();
+        q.entropy.clear();
+        out.push(q);
+        if p.entropy.len() > 1 {
+            for i in 0..p.entropy.len() {
+                let mut q = p.clone();
+                q.entropy.remove(i);
+                out.push(q);
+            }
+        }
+        for i in 0..p.entropy.len() {
+            if p.entropy[i].4 > 1 {
+                let mut q = p.clone();
+                q.entropy[i].4 -= 1;
                 out.push(q);
             }
         }
